@@ -99,6 +99,8 @@ def _worker(args):
     try:
         torch.set_num_threads(1)
         res = mod.run_unit(unit)
+        for v in res["violations"]:
+            v["unit"] = unit
     except Exception:  # harness error: never reported as a violation
         res = new_result()
         res["errors"].append({"unit": repr(unit)[:500], "trace": traceback.format_exc()[-3000:]})
@@ -119,6 +121,11 @@ def merge(into, res):
         if c not in into["caps"]:
             into["caps"].append(c)
     into["errors"].extend(res["errors"])
+
+
+def _detuple(x):
+    """units are tuples of scalars / dicts / lists; JSON turns tuples into lists, which every run_unit unpacks just the same"""
+    return tuple(x) if isinstance(x, list) else x
 
 
 def load_known():
@@ -161,7 +168,11 @@ def main_check(modname, tier, seed, replay_path=None, extra_cov=None):
     if replay_path is not None:
         with open(replay_path) as f:
             rep = json.load(f)
-        vs = mod.replay(rep["case"])
+        if isinstance(rep["case"], dict) and "__unit__" in rep["case"]:
+            # a finding that needs the unit's whole sequence of calls on one object (state kept between calls)
+            vs = [v for v in mod.run_unit(_detuple(rep["case"]["__unit__"]))["violations"] if v["key"] == rep["case"]["key"]]
+        else:
+            vs = mod.replay(rep["case"])
         if vs:
             for v in vs:
                 print("REPLAY-VIOLATION property=%s key=%s :: %s" % (pid, v["key"], v["msg"]))
@@ -226,6 +237,20 @@ def main_check(modname, tier, seed, replay_path=None, extra_cov=None):
             return 3
         k1 = sorted(v["key"] + "::" + v["msg"] for v in r1)
         k2 = sorted(v["key"] + "::" + v["msg"] for v in r2)
+        if k1 == k2 and key not in [v["key"] for v in r1] and "unit" in groups[key]["first"]:
+            # the isolated case is (deterministically) clean: the finding may need the calls made before it on the same
+            # object. Re-run its whole unit twice; if the key comes back both times the unit is the replayable artefact.
+            unit = groups[key]["first"]["unit"]
+            try:
+                u1 = [v for v in mod.run_unit(unit)["violations"] if v["key"] == key]
+                u2 = [v for v in mod.run_unit(unit)["violations"] if v["key"] == key]
+            except Exception:
+                sys.stderr.write("HARNESS-ERROR unit replay of key=%s raised\n%s\n" % (key, traceback.format_exc()[-2000:]))
+                return 3
+            if u1 and [v["msg"] for v in u1] == [v["msg"] for v in u2]:
+                groups[key]["first"] = dict(u1[0], case={"__unit__": jsonable(unit), "key": key},
+                                            msg=u1[0]["msg"] + " [needs the unit's earlier calls on the same object: not reproducible as an isolated call]")
+                continue
         if k1 != k2 or key not in [v["key"] for v in r1]:
             nondet.append((key, k1, k2))
     if nondet:
